@@ -49,17 +49,20 @@ def main():
     ap.add_argument("--only")
     ap.add_argument("--props")
     ap.add_argument("--jobs", type=int, default=4)
+    ap.add_argument("--dir", default="seeded", help="seeded (breaking changes: must be caught) or refactors (behaviour-preserving changes: must stay silent)")
     a = ap.parse_args()
-    dirs = sorted(glob.glob(os.path.join(VERIF, "seeded", "C*-m*")))
+    dirs = sorted(glob.glob(os.path.join(VERIF, a.dir, "*-*")))
+    dirs = [d for d in dirs if os.path.isdir(d)]
     if a.only:
         dirs = [d for d in dirs if os.path.basename(d) in a.only.split(",")]
     props = a.props.split(",") if a.props else ALL
-    out_path = os.path.join(VERIF, "seeded", "RESULTS.json")
+    out_path = os.path.join(VERIF, a.dir, "RESULTS.json")
     results = json.load(open(out_path)) if os.path.exists(out_path) else {}
     with concurrent.futures.ThreadPoolExecutor(max_workers=a.jobs) as ex:
         for name, r in ex.map(lambda d: run_one(d, props), dirs):
             cb = r.get("caught_by", {})
-            print("%-8s %s" % (name, ("CAUGHT by " + ", ".join("%s[%s]" % (p, ",".join(v["rules"])) for p, v in cb.items())) if cb else ("missed" if "error" not in r else r["error"])))
+            quiet = "silent" if a.dir != "seeded" else "missed"
+            print("%-8s %s" % (name, ((("CAUGHT by " if a.dir == "seeded" else "ALARM from ") + ", ".join("%s[%s]" % (p, ",".join(v["rules"])) for p, v in cb.items())) if cb else (quiet if "error" not in r else r["error"]))))
             sys.stdout.flush()
             prev = results.get(name, {}).get("caught_by", {}) if a.props else {}
             prev.update(cb)
